@@ -369,6 +369,51 @@ static void structured(unsigned long long& unit)
 		}
 }
 
+// ---- dense ill-conditioned matrices (condition 1e2 ... 1e8): Hilbert matrices and rotated graded spectra; every inversion first in a
+// child with a time limit (an iteration that cannot reach its goal at this conditioning must not take the shard with it)
+static void ill_conditioned(unsigned long long& unit)
+{
+	auto guarded = [](const Rows& a, const std::string& fam) {
+		auto o = mc::isolate([&](std::function<void(const std::string&)> out) { Matrix M(a); Matrix X = M.Inverse(); out(std::to_string(X.Rows())); double d = M.Determinant(); out(mc::dec(d)); }, 20.0);
+		if(o.kind == mc::Outcome::TIMEOUT) { fail(fam, a, "inverse_does_not_return", "Inverse()/Determinant() of an invertible matrix did not return within 20 s"); return; }
+		check_matrix(a, fam);
+	};
+	for(int n = 2; n <= 6; n++)
+	{
+		if(!mc::mine(unit++)) continue;
+		Rows h(n, std::vector<double>(n));
+		for(int i = 0; i < n; i++)
+			for(int j = 0; j < n; j++) h[i][j] = 1.0 / (i + j + 1);
+		guarded(h, "hilbert");
+		for(int i = 0; i < n; i++)
+			for(int j = 0; j < n; j++) h[i][j] = 1.0 / (i + j + 2.5);
+		guarded(h, "hilbert_shifted");
+	}
+	for(int n = 2; n <= 6; n++)
+		for(double c : {1e2, 1e4, 1e6, 1e7, 3e7, 8e7})
+			for(int variant = 0; variant < 3; variant++)
+			{
+				if(!mc::mine(unit++)) continue;
+				// M = U diag(1 ... 1/c) V with U, V products of plane rotations by fixed angles
+				Rows m(n, std::vector<double>(n, 0.0));
+				for(int i = 0; i < n; i++) m[i][i] = variant == 2 ? (i == n - 1 ? 1 / c : 1.0) : std::pow(c, -(double)i / (n - 1));
+				auto rotate = [&](int p, int q2, double ang, bool left) {
+					double cs = std::cos(ang), sn = std::sin(ang);
+					for(int k = 0; k < n; k++)
+					{
+						double& x = left ? m[p][k] : m[k][p];
+						double& y = left ? m[q2][k] : m[k][q2];
+						double x0 = x, y0 = y;
+						x = cs * x0 - sn * y0; y = sn * x0 + cs * y0;
+					}
+				};
+				int t = 0;
+				for(int p = 0; p < n; p++)
+					for(int q2 = p + 1; q2 < n; q2++) { rotate(p, q2, 0.3 + 0.37 * (t + variant), true); rotate(p, q2, 1.1 - 0.23 * (t + 2 * variant), false); t++; }
+				guarded(m, "rotated_graded_spectrum");
+			}
+}
+
 // ---- one object, mutated in place: every answer is that of the current contents -------------------------------------------------
 static std::string answers(Matrix& M)
 {
@@ -452,6 +497,7 @@ int main(int argc, char** argv)
 	plu_families(unit);
 	tiny_pivots(unit);
 	structured(unit);
+	ill_conditioned(unit);
 	object_histories(unit);
 	mc::alphabet("entries_2x2", 5);
 	mc::alphabet("entries_3x3", mc::thorough() ? 4 : 3);
